@@ -446,6 +446,20 @@ class _FuncEval:
                     st = self.block(blk, st)
                     i += 2
                     continue
+                # `x = H(a); if x is None: <leaves>; REST`  ==  `x = H(a); if x is None: <leaves> else: REST`
+                s2_ = stmts[i + 1]
+                if isinstance(s2_, ast.If) and not s2_.orelse and i + 2 < len(stmts) and s2_.body and \
+                        isinstance(s2_.body[-1], (ast.Raise, ast.Return)):
+                    k2 = ("t3rest", id(s2_))
+                    alt = self._desugared.get(k2)
+                    if alt is None:
+                        import copy as _copy
+                        alt = _copy.copy(s2_)
+                        alt.orelse = list(stmts[i + 2:])
+                        self._desugared[k2] = alt
+                    blk = self._expand_option_helper(stmts[i], alt, st)
+                    if blk is not None:
+                        return self.block(blk, st)
             if self.ev.deep_inline_in and i + 1 < len(stmts) and isinstance(stmts[i], (ast.For, ast.While)) and self._in_deep_root():
                 blk = self._duplicate_tail(stmts[i], stmts[i + 1:])
                 if blk is not None:
@@ -716,8 +730,26 @@ class _FuncEval:
             if pt is not None and pt[0] == "seq" and pt[1][0] == "inst":
                 elem_names.add(loop.target.id)
 
+        if isinstance(loop, ast.For) and isinstance(loop.target, ast.Name) and isinstance(loop.iter, ast.Call) and \
+                isinstance(loop.iter.func, ast.Name) and loop.iter.func.id in ("range", "enumerate") and "range" not in self.f.params() \
+                and loop.iter.func.id == "range":
+            elem_names.add(loop.target.id)  # the elements of a range are ints
+
+        # a name returned directly under `if <name>:` / `if <name> is not None:` is not None there
+        guarded: set = set()
+        for y in ast.walk(loop):
+            if isinstance(y, ast.If):
+                t_ = y.test
+                nm = t_.id if isinstance(t_, ast.Name) else (
+                    t_.left.id if isinstance(t_, ast.Compare) and len(t_.ops) == 1 and isinstance(t_.ops[0], ast.IsNot) and
+                    isinstance(t_.left, ast.Name) and isinstance(t_.comparators[0], ast.Constant) and t_.comparators[0].value is None else None)
+                if nm:
+                    z = y.body[0]  # (the first statement of the arm: nothing can rebind the name in between)
+                    if isinstance(z, ast.Return) and isinstance(z.value, ast.Name) and z.value.id == nm:
+                        guarded.add(id(z.value))
+
         def non_none(v):
-            return isinstance(v, (ast.Tuple, ast.List, ast.Dict, ast.Set, ast.JoinedStr)) or \
+            return isinstance(v, (ast.Tuple, ast.List, ast.Dict, ast.Set, ast.JoinedStr)) or id(v) in guarded or \
                 (isinstance(v, ast.Constant) and v.value is not None) or (isinstance(v, ast.Name) and v.id in elem_names)
         if not all(r_.value is not None and non_none(r_.value) for r_ in rets):
             return None
@@ -2390,6 +2422,42 @@ class _FuncEval:
                 st.cond = st.cond + rets[0].cond
                 self.ev.deep_inlined.add(f.qual)
                 return rets[0].value
+        if (private_helper and getattr(self, "_stmt_call", None) is n and (sm.effects or sm.loops) and not sm.unsupported and not sm.trys
+                and self._deep(f)):
+            # a private *procedure* called as a statement (its value is discarded): whatever its early `return`s, the caller goes on
+            # afterwards on every path that returns, so its effects, calls, loops and raise exits -- each under its own path condition
+            # -- are the caller's (a loop body moved out into `_handle_one(x)` is still the loop's body)
+            rets = [e for e in sm.exits if e.kind == "ret"]
+            if rets and all(e.loops == () for e in rets) and all(e.kind in ("ret", "raise") or e.loops for e in sm.exits) \
+                    and not any(lid in self.s.loops for lid in sm.loops):
+                import dataclasses as _dc
+                pc, pl = st.cond, tuple(self.loop_stack)
+                outer = next((l for l in reversed(self.loop_stack) if not l.endswith(":else")), None)
+                for lid, l in sm.loops.items():
+                    self.s.loops[lid] = _dc.replace(
+                        l, parent=l.parent if l.parent is not None else outer, depth=l.depth + len(pl), cond=pc + l.cond,
+                        fall_cond=pc + l.fall_cond if l.fall_cond else l.fall_cond,
+                        break_states=[(pc + c_, d_) for c_, d_ in l.break_states],
+                        continue_updates=[(pc + c_, d_) for c_, d_ in l.continue_updates])
+                for e in sm.exits:
+                    if e.kind != "ret":
+                        self.s.exits.append(Exit(e.kind, e.value, pc + e.cond, e.node, pl + e.loops, e.handled))
+                for e in sm.effects:
+                    self.s.effects.append(Effect(e.kind, e.target, e.key, e.value, pc + e.cond, pl + e.loops, e.node,
+                                                 tuple(self.try_stack) + tuple(e.trys)))
+                for c in sm.calls:
+                    self.s.calls.append(CallRec(c.fn, c.args, c.kwargs, pc + c.cond, pl + c.loops, c.node, c.result,
+                                                tuple(self.try_stack) + tuple(c.trys), c.inlined))
+                ca, ck = self.canon_call(fn, list(args), dict(kwargs))
+                self.s.calls.append(CallRec(fn, tuple(ca), tuple(sorted(ck.items())), st.cond, pl, n, ("const", None),
+                                            tuple(self.try_stack), True))
+                raises = [e for e in sm.exits if e.kind == "raise" and not e.loops]
+                if raises:
+                    ds = tuple(_conj(e.cond) for e in rets)
+                    if ("const", True) not in ds:
+                        st.cond = st.cond + (((ds[0] if len(ds) == 1 else ("or", ds)), True),)
+                self.ev.deep_inlined.add(f.qual)
+                return ("const", None)
         if (len(live) == 1 and live[0].kind == "ret" and not live[0].cond and not sm.loops and not sm.effects
                 and not sm.unsupported and not sm.trys and (leaf or expr_wrapper or private_helper)):
             # single-return wrapper: inline the value; its own calls become call records of the caller
